@@ -77,7 +77,17 @@ Denote(t, subs) ==
                    ELSE IF Len(args) = 0 THEN <<"sub", f, EmptyOf(kind)>>
                    ELSE IF Len(args) = 1
                         THEN LET x == Denote(args[1], subs) IN
-                             IF IsBot(x) \/ x[1] # kind THEN BOT ELSE <<"sub", f, x>>
+                             IF IsBot(x) THEN BOT
+                             \* a frozenset has no literal: its elements are given as a list
+                             ELSE IF kind = "frozenset" /\ x[1] = "list" THEN <<"sub", f, <<"frozenset", x[2]>>>>
+                             \* inf / nan have no literal either: Sub('inf') like float('inf')
+                             ELSE IF kind = "float" /\ x[1] = "str" /\ x[2] = <<105, 110, 102>>
+                                  THEN <<"sub", f, <<"float", "inf">>>>
+                             ELSE IF kind = "float" /\ x[1] = "str" /\ x[2] = <<45, 105, 110, 102>>
+                                  THEN <<"sub", f, <<"float", "-inf">>>>
+                             ELSE IF kind = "float" /\ x[1] = "str" /\ x[2] = <<110, 97, 110>>
+                                  THEN <<"sub", f, <<"float", "nan">>>>
+                             ELSE IF x[1] # kind THEN BOT ELSE <<"sub", f, x>>
                         ELSE BOT
          ELSE \* a constructor call: denotes the object built from the denoted arguments
               LET xs == DenoteSeq(args, subs)
